@@ -403,6 +403,9 @@ def report(ck, agg, prop):
     ck.coverage['traces_validated_against_impl'] = (
         agg['runs'] - mm.get('bad_runs', 0))
     ck.coverage['model_transitions_compared'] = mm.get('transitions', 0)
+    pre = agg.get('stats', {}).get('runs_with_a_preempted_step', 0)
+    ck.coverage['runs_compared_with_the_model_in_full'] = agg['runs'] - pre
+    ck.coverage['runs_compared_up_to_the_first_transition_inside_a_step'] = pre
     for m in mm.get('mismatch', [])[:1]:
         found = search_failing_input(ck, m, prop)
         if found:
